@@ -557,7 +557,7 @@ static void hist_name(const int *hist, int n, char *out);
 static int replay(const config_t *cfg, const int *hist, int n) {
 	int i;
 	hist_name(hist, n, g_hist);
-	g_cfg = (int)(cfg - CONFIGS);
+	g_cfg = (cfg >= CONFIGS && cfg < CONFIGS + NCONFIGS) ? (int)(cfg - CONFIGS) : -1;
 	world_open(cfg);
 	for (i = 0; i < n; i++) {
 		if (!apply(hist[i])) return 0;
@@ -655,7 +655,7 @@ static void run_schedule(const config_t *cfg, const int *ins_pos, const int *ins
 	int i, k, n = 0;
 	char *g = g_hist;
 	world_open(cfg);
-	g_cfg = (int)(cfg - CONFIGS);
+	g_cfg = (cfg >= CONFIGS && cfg < CONFIGS + NCONFIGS) ? (int)(cfg - CONFIGS) : -1;
 	for (i = 0; i <= NBASE && !W.violated; i++) {
 		for (k = 0; k < nins; k++) if (ins_pos[k] == i) { if (n < 38) g[n++] = EVCH[ins_ev[k]]; g[n] = 0; apply(ins_ev[k]); n_transitions++; }
 		if (i < NBASE) { if (n < 38) g[n++] = (char)(EVCH[BASE[i]] | 0x20) == EVCH[BASE[i]] ? EVCH[BASE[i]] : EVCH[BASE[i]]; g[n] = 0; apply(BASE[i]); n_transitions++; }
@@ -717,12 +717,35 @@ static void part_conf(void) {
 	}
 }
 
+/* unequal send / receive time-outs: the exact moment a request may be given up. Small alphabet (add, run, reply, deliver all,
+ * clock + 1 s), deeper search */
+static void part_timeouts(void) {
+	static const config_t TCFG[] = { {2, 2, 2, 10, 10}, {2, 2, 10, 2, 10}, {1, 1, 2, 5, 10}, {2, 2, 3, 1, 10} };
+	static const int ALPHA[] = {EV_ADD, EV_RUN, EV_REPLY_OLDEST, EV_DELIVER_ALL, EV_CLOCK_1};
+	int ci, a1, depth = VF_THOROUGH ? 10 : 8, e;
+	for (ci = 0; ci < 4; ci++) for (a1 = 0; a1 < 5; a1++) {
+		int hist[16];
+		if (!vf_case_begin("timeouts:snd%d.rcv%d:%c:d%d", TCFG[ci].snd, TCFG[ci].rcv, EVCH[ALPHA[a1]], depth)) continue;
+		g_nalpha = 0;
+		for (e = 0; e < 5; e++) g_alpha[g_nalpha++] = ALPHA[e];
+		memset(seen, 0, ((size_t)1 << SEEN_BITS) * sizeof *seen);
+		n_states = n_transitions = n_pruned = n_traces = 0;
+		hist[0] = ALPHA[a1];
+		explore(&TCFG[ci], hist, 1, depth);
+		vf_count("states", n_states); vf_count("transitions", n_transitions); vf_count("traces", n_traces); vf_count("pruned_revisits", n_pruned);
+		vf_obs("states=%ld", n_states);
+		alpha_main();
+		vf_case_end(n_traces > 0);
+	}
+}
+
 static void run(void) {
 	int ci, e1, e2, e3;
 	int depth = VF_THOROUGH ? 8 : 6;
 	seen = calloc((size_t)1 << SEEN_BITS, sizeof *seen);
 	alpha_main();
 	part_conf();
+	part_timeouts();
 	for (ci = 0; ci < NCONFIGS; ci++) {
 		int d = depth;
 		if (!VF_THOROUGH && ci >= 4) d = depth - 1;
